@@ -381,12 +381,6 @@ def minify_application(ctx, progs, found_by):
                         reqs.append('min.applyast %s %s %s' % (ren, hw, pyast.enc_module(tree)))
                     else:
                         o = dict(c05.DEFAULTS)
-                        for k in c05.ANN_OPTS:
-                            o[k] = False               # core programs carry no annotations: the theorem is stated without their removal
-                        if any(isinstance(n, (ast.AnnAssign,)) or (isinstance(n, ast.arg) and n.annotation is not None)
-                               or (isinstance(n, ast.FunctionDef) and n.returns is not None) for n in ast.walk(tree)):
-                            ctx.bump('out_of_model', 'annotations')
-                            continue
                         _, tainted = c05.unbound_names(tree)
                         unbound, _mixed = c05.bracket_names(tree)
                         treq = c05.transform_request(tree, o, set() if tainted else (unbound & set(impl_list)))
@@ -414,9 +408,9 @@ def minify_application(ctx, progs, found_by):
             ctx.add_broken('correspondence', 'min.apply:%s:%s' % (mode, ident), 'the model pipeline prints %r, minify() prints %r (source %r)' % (model[:300], out[:300], src[:300]))
         else:
             st['same_text'] += 1
-        if flag == 'OK 1 1':
+        if flag in ('OK 1 1', 'OK 1 1 1'):
             st['conditions_hold'] += 1
-        elif flag == 'OK 1 0' and _debug_literal_hoisted(src, w):
+        elif flag in ('OK 1 0', 'OK 1 0 1') and _debug_literal_hoisted(src, w):
             st['debug_literal_hoisted'] += 1
             ctx.bump('out_of_model', 'hoisted-literal-in-debug-test')
         else:
